@@ -40,6 +40,12 @@ def coq(t):
         return "(XString %s)" % cstr(t[1])
     if k == "if":
         return "(XIf %s %s %s)" % (coq(t[1]), coq(t[2]), coq(t[3]))
+    if k == "field":
+        return "(XField %s %s)" % (coq(t[1]), cstr(t[2]))
+    if k == "list":
+        return "(XList [%s])" % "; ".join(coq(a) for a in t[1])
+    if k == "struct":
+        return "(XStruct %s [%s])" % (cstr(t[1]), "; ".join("(%s, %s)" % (cstr(f), coq(a)) for f, a in t[2]))
     raise ValueError(k)
 
 
@@ -71,6 +77,12 @@ def src(t):
         return '"%s"' % esc_src(t[1])
     if k == "if":
         return "(if %s then %s else %s)" % (src(t[1]), src(t[2]), src(t[3]))
+    if k == "field":
+        return "%s.%s" % (src(t[1]), t[2])
+    if k == "list":
+        return "[%s]" % ", ".join(src(a) for a in t[1])
+    if k == "struct":
+        return "%s {%s}" % (t[1], ", ".join("%s: %s" % (f, src(a)) for f, a in t[2]))
     raise ValueError(k)
 
 
@@ -108,7 +120,11 @@ class TGen:
             return ("bin", "Mul", self.num(), ("id", r.choice(["k1", "pi"])))
         if c == 13:
             return ("callable", ("if", self.B(d - 2), ("id", "sin"), ("id", "cos")), [self.S(d - 1)])
-        return ("call", "atan2", [self.S(d - 1), self.S(d - 1)])
+        if r.random() < 0.5:
+            return ("call", "atan2", [self.S(d - 1), self.S(d - 1)])
+        if r.random() < 0.5:
+            return ("call", "len", [("list", [self.S(d - 2) for _ in range(r.choice([0, 1, 2, 3]))])])
+        return ("field", ("struct", "Rec", [("n", self.S(d - 1)), ("ok", self.B(d - 2))]), "n")
 
     def K(self, d):
         r = self.r
@@ -138,7 +154,11 @@ class TGen:
             return ("bin", "ConvertTo", self.L(d - 1), ("unit", r.choice(["cm", "km", "mm"])))
         if c == 8:
             return ("bin", "ConvertTo", self.L(d - 1), ("if", self.B(d - 2), ("unit", "cm"), ("unit", "mm")))
-        return ("call", "halve", [self.L(d - 1)])
+        if r.random() < 0.4:
+            return ("call", "halve", [self.L(d - 1)])
+        if r.random() < 0.5:
+            return ("call", "head", [("list", [self.L(d - 1), self.L(d - 2)])])
+        return ("field", ("struct", "Pt", [("x", self.L(d - 1)), ("y", self.L(d - 2))]), r.choice("xy"))
 
     def B(self, d):
         r = self.r
@@ -159,7 +179,11 @@ class TGen:
         return ("bin", "Equal", ("str", r.choice(STRS)), ("str", r.choice(STRS)))
 
     def any(self, d):
-        k = self.r.choice(["S", "S", "S", "L", "L", "B", "K", "Str"])
+        k = self.r.choice(["S", "S", "S", "L", "L", "B", "K", "Str", "Lst", "Rec"])
         if k == "Str":
             return ("str", self.r.choice(STRS))
+        if k == "Lst":
+            return ("list", [self.L(d - 1) for _ in range(self.r.choice([0, 1, 2, 3]))])
+        if k == "Rec":
+            return ("struct", "Pt", [("x", self.L(d - 1)), ("y", self.L(d - 1))])
         return getattr(self, k)(d)
